@@ -19,11 +19,15 @@ TAG_OF_KEY = {"list": "list", "dict": "dict", "int": "int", "float": "float", "s
 KEY_OF_TAG = {v: k for k, v in TAG_OF_KEY.items()}
 
 
-def node_classes_returned(model, factory_fn, visitor_mod) -> Dict[str, List[ast.Call]]:
+def node_classes_returned(model, factory_fn, visitor_mod, siblings=None, _seen=None) -> Dict[str, List[ast.Call]]:
     """node class name -> constructor calls in return position of a factory closure
-    (wrappers such as VariadicTupleMethod(method) are followed to the wrapped local)."""
+    (wrappers such as VariadicTupleMethod(method) are followed to the wrapped local; a call of a sibling
+    closure - `factory(constraints, ...)` inside a wrapping factory - to what that closure returns)."""
     out: Dict[str, List[ast.Call]] = {}
     assigns: Dict[str, List[ast.AST]] = {}
+    siblings = siblings or {}
+    _seen = _seen if _seen is not None else set()
+    _seen.add(id(factory_fn))
     for n in walk_no_nested(factory_fn):
         if isinstance(n, ast.Assign) and isinstance(n.targets[0], ast.Name):
             assigns.setdefault(n.targets[0].id, []).append(n.value)
@@ -39,6 +43,11 @@ def node_classes_returned(model, factory_fn, visitor_mod) -> Dict[str, List[ast.
             q = f"{DESER_MOD}.{name}"
             if q in model.classes:
                 out.setdefault(name, []).append(e)
+                if name in WRAPPERS and e.args:
+                    expand(e.args[0], depth + 1)
+            elif isinstance(e.func, ast.Name) and e.func.id in siblings and id(siblings[e.func.id].node) not in _seen:
+                for k_, v_ in node_classes_returned(model, siblings[e.func.id].node, visitor_mod, siblings, _seen).items():
+                    out.setdefault(k_, []).extend(v_)
         elif isinstance(e, ast.Name):
             for v in assigns.get(e.id, []):
                 expand(v, depth + 1)
@@ -88,7 +97,8 @@ def discriminator_key_if_absent(ctx, rule):
 
 
 
-WRAPPERS = {"VariadicTupleMethod", "FrozenSetMethod"}  # accept what the wrapped list node accepts
+# accept what the wrapped node accepts: their deserialize hands the datum to self.method.deserialize first (checked below)
+WRAPPERS = {"VariadicTupleMethod", "FrozenSetMethod", "ValidatorMethod"}
 
 
 def factory_key_rule(ctx, rule):
@@ -166,8 +176,8 @@ def check(ctx):
             key = dotted(keynode)
             if key in TAG_OF_KEY:
                 # fixed key: every node the factory builds must accept only that class
-                built = node_classes_returned(model, ffn, m.module)
-                ctx.require(built, f"no node construction found in {m.qualname}.factory")
+                built = node_classes_returned(model, ffn, m.module, m.nested)
+                ctx.require(built and set(built) - WRAPPERS, f"no node construction found in {m.qualname}.factory")
                 for cname in sorted(built):
                     if cname in WRAPPERS:
                         continue
@@ -213,7 +223,7 @@ def check(ctx):
                 ctx.require(branches >= 5, f"primitive dispatch branches not recognised in {m.qualname}")
             else:
                 # a computed key: whatever class it denotes, every node built must accept data of ONE class only
-                built = node_classes_returned(model, ffn, m.module)
+                built = node_classes_returned(model, ffn, m.module, m.nested)
                 wide = {c_: accept_set(model, f"{DESER_MOD}.{c_}") for c_ in sorted(built) if c_ not in WRAPPERS}
                 wide = {c_: a_ for c_, a_ in wide.items() if len(a_) > 1}
                 if wide:
@@ -224,6 +234,11 @@ def check(ctx):
                 else:
                     ctx.undecided("C13.R1", f"{m.qualname}: dispatch key `{norm(keynode)}` is computed and cannot be related to the accept-set of {sorted(built)}")
     ctx.require(n_keyed >= 5, f"only {n_keyed} keyed _factory sites")
+    for w in sorted(WRAPPERS):
+        wm = model.func(f"{DESER_MOD}.{w}.deserialize")
+        first = [c for c in ast.walk(wm.node) if isinstance(c, ast.Call) and norm(c.func) == "self.method.deserialize"]
+        ok = len(first) == 1 and norm(first[0].args[0]) == "data" and not any(isinstance(n, ast.If) and any(x is first[0] for x in ast.walk(n)) and not any(x is first[0] for x in ast.walk(n.test)) for n in walk_no_nested(wm.node))
+        ctx.check(ok, "C13.R1", f"wrapper:{w}", None, f"{w} no longer hands its datum unconditionally to the wrapped node: its accept-set is not the wrapped node's any more (dispatch keys are judged on the wrapped node)", wm, wm.node, detail="self.method.deserialize(data) first")
     factory_key_rule(ctx, "C13.R1")
     # the dispatcher itself looks up by exact type
     ub = model.func(f"{DESER_MOD}.UnionByTypeMethod.deserialize")
